@@ -453,9 +453,11 @@ func (s *simRun) runProg(p int, src, pt key.TargetID) {
 				e.Heal(info.Heal{Key: "verif-heal", Source: src, Targets: []key.TargetID{t}, HealValue: float64(c.a)})
 				s.mark(t)
 			}
-		case 'C': // HP cost on self: a percent of max HP, floor b
-			e.ModifyHPByRatio(info.ModifyHPByRatio{Key: "verif-cost", Target: src, Source: src, Ratio: -float64(c.a) / 100, RatioType: model.ModifyHPRatioType_MAX_HP, Floor: float64(c.b)})
-			s.mark(src)
+		case 'C': // HP change by ratio on each selected unit (default: self): a percent of max HP taken away (given, when negative), floor b
+			for _, t := range s.resolve(c.sel, src, pt) {
+				e.ModifyHPByRatio(info.ModifyHPByRatio{Key: "verif-cost", Target: t, Source: src, Ratio: -float64(c.a) / 100, RatioType: model.ModifyHPRatioType_MAX_HP, Floor: float64(c.b)})
+				s.mark(t)
+			}
 		case 'I': // insert ability: a = program, b = priority, c = abort flags
 			prog, prio := c.a, c.b
 			var fl []model.BehaviorFlag
